@@ -111,6 +111,13 @@ def check_line(isa, mnemonic, ops, layout):
     for k, (g, e) in enumerate(zip(got, exp)):
         if g.get("t") == "reg" and e.get("t") == "reg" and e.get("name") in ("zr", "sp"):
             g = dict(g, name=str(g.get("name")).lower())  # alias names: case is not significant
+        if g.get("t") == "mem" and e.get("t") == "mem" and isa == "aarch64":
+            # the same for the stack pointer / zero register alias inside a memory operand
+            g = dict(g)
+            for part in ("base", "index"):
+                r = g.get(part)
+                if isinstance(r, dict) and str(r.get("name")).lower() in ("zr", "sp"):
+                    g[part] = dict(r, name=str(r["name"]).lower())
         if g != e:
             if g.get("t") == "imm" and e.get("t") == "imm" and "fv" in g and "fv" in e and \
                     abs(g["fv"] - e["fv"]) < 1e-12 and g.get("ftype") == e.get("ftype"):
